@@ -1,11 +1,13 @@
 #!/bin/sh
-# MANIFEST.setup_cmd: regenerate the extracted kernels from /repo, build the Lean library, the
-# equivalence modules of the extraction tie and the native model driver (offline; no fetches).
-set -e
+# MANIFEST.setup_cmd: regenerate the extracted kernels from /repo, build the Lean library and the native model driver
+# (these must succeed), then - best effort - the equivalence modules of the extraction tie and the non-vacuity examples.
+# A source fragment that no longer translates, or an equivalence proof that no longer checks, is NOT a set-up failure:
+# the check of that property detects it, reports the tie as lost and searches for a failing input (offline; no fetches).
 cd "$(dirname "$0")/.."
-/venv/bin/python harness/extract.py
+/venv/bin/python harness/extract.py || echo "setup: some kernels are not translatable from the current source (the checks report it)"
 cd lean
-lake build PysparklingVerif driver \
-  PysparklingVerif.Extracted.EquivC04 PysparklingVerif.Extracted.EquivC05 PysparklingVerif.Extracted.EquivC10 PysparklingVerif.Extracted.EquivC11 \
-  PysparklingVerif.Extracted.EquivC07 PysparklingVerif.Extracted.EquivC14 \
-  PysparklingVerif.Extracted.EquivC16 PysparklingVerif.Extracted.EquivC17 PysparklingVerif.Extracted.EquivC18
+lake build PysparklingVerif driver || exit 1
+EQUIV=$(ls PysparklingVerif/Extracted/Equiv*.lean | sed 's/\.lean$//; s#/#.#g')
+lake build $EQUIV PysparklingVerif.Properties.NonVacuity \
+  || echo "setup: an equivalence module or the non-vacuity file does not build against the current source (the checks report it)"
+exit 0
